@@ -9,6 +9,7 @@
 mod alloc;
 mod gen;
 mod model;
+mod model_resolve;
 mod model_shrink;
 mod mon;
 mod rng;
